@@ -921,6 +921,79 @@ C_KIND = {"cheap": 0.13, "medium": 0.05, "expensive": 0.03}
 REF_NODES = (32, 128, 32)
 
 
+# ----------------------------------------------------------------------------- facet 3c: large maps
+# compute_transmission_map switches to a per-detector loop when quadrature points x detectors
+# exceeds 2e7 (to bound memory).  Metamorphic oracle: the map of many detectors equals the maps of
+# the same detectors evaluated in pieces that each stay below the switch.
+
+CHUNK_SWITCH = 20_000_000
+
+
+@st.composite
+def chunked_cases(draw):
+    cyl = draw(cylinder_cases("any", aspect=(0.55, 1.5)))        # h/r >= 3.5: the longest z rule
+    _, beam = draw(beam_cases(cyl))
+    wl_unit, wls = _wavelengths(draw, 2)
+    return {
+        "cyl": cyl, "beam": beam, "wl_unit": wl_unit, "wavelengths": wls,
+        "det_unit": draw(st.sampled_from(LEN_UNITS)), "det_seed": draw(st.integers(0, 2**32 - 1)),
+        "extra": draw(st.sampled_from([1, 1, 2, 7])),
+        "layout": draw(st.sampled_from(["1d", "1d", "2d-rows-below-switch", "2d-rows-above-switch"])),
+        "material": draw(material_cases()), "kind": "expensive",
+        "mu_size": draw(st.floats(0.3, 3.0)),
+    }
+
+
+def _hash_unit_vectors(seed, n):
+    """n directions on the sphere from a counter hash (splitmix64), no RNG state."""
+    i = np.arange(1, 3 * n + 1, dtype=np.uint64) + np.uint64(seed) * np.uint64(0x9E3779B97F4A7C15)
+    with np.errstate(over="ignore"):
+        z = i * np.uint64(0x9E3779B97F4A7C15)
+        z = (z ^ (z >> np.uint64(30))) * np.uint64(0xBF58476D1CE4E5B9)
+        z = (z ^ (z >> np.uint64(27))) * np.uint64(0x94D049BB133111EB)
+        z = z ^ (z >> np.uint64(31))
+    u = (z >> np.uint64(11)).astype(np.float64) / 2.0**53
+    u = u.reshape(n, 3)
+    cz = 2 * u[:, 0] - 1
+    phi = 2 * math.pi * u[:, 1]
+    sz = np.sqrt(1 - cz * cz)
+    dist = 10.0 ** (0.5 + 1.5 * u[:, 2])                     # 3..100 sizes away
+    return np.stack([sz * np.cos(phi), sz * np.sin(phi), cz], axis=1) * dist[:, None]
+
+
+def check_chunked(case):
+    cyl = case["cyl"]
+    npts = build_cylinder(cyl).quadrature(case["kind"])[0].sizes["quad"]
+    per_row = CHUNK_SWITCH // npts + case["extra"]               # one row alone exceeds the switch
+    if case["layout"] == "1d":
+        shape = [per_row]
+    elif case["layout"] == "2d-rows-below-switch":
+        shape = [2, per_row // 2 + 1]                            # split once over y, rows vectorised
+    else:
+        shape = [2, per_row]                                     # split over y, then again over x
+    n = int(np.prod(shape))
+    size = _size(cyl)
+    centre = np.asarray([cyl["base"][i] + cyl["axis"][i] * cyl["h"] / 2 for i in range(3)])
+    f = float(units.LENGTH[cyl["unit"]] / units.LENGTH[case["det_unit"]])
+    dets = (centre[None, :] + size * _hash_unit_vectors(case["det_seed"], n)) * f
+    dens = _density_for(case, case["mu_size"])
+    big = dict(case, det_shape=shape)
+    T = _run_map(big, cyl, case["beam"], dets, dens)
+    piece = max(CHUNK_SWITCH // npts - 1, 1)
+    parts = []
+    for a in range(0, n, piece):
+        parts.append(_run_map(dict(case, det_shape=None), cyl, case["beam"], dets[a:a + piece], dens))
+    ref = np.concatenate(parts, axis=1)
+    err = float(np.max(np.abs(T / ref - 1)))
+    if not err <= 1e-12:
+        k = int(np.argmax(np.max(np.abs(T / ref - 1), axis=0)))
+        raise Violation("chunked-map", f"map of {shape} detectors ({npts} quadrature points, above the 2e7 switch) "
+                                       f"differs from the same detectors evaluated in pieces of {piece}: rel. "
+                                       f"deviation {err:.3e} at detector {k}: {T[:, k].tolist()} vs {ref[:, k].tolist()}")
+    return ["layout:" + case["layout"], f"npts:{npts}", f"detectors:{n}", "unit:" + cyl["unit"],
+            "err:" + ("0" if err == 0 else "<1e-14" if err < 1e-14 else "<1e-12")], True
+
+
 def exactly_collinear(u, v) -> bool:
     """Stored vectors exactly collinear (products of doubles are exact in 50-digit arithmetic)."""
     with mp.workdps(50):
@@ -1147,6 +1220,10 @@ FACETS = [
           quick=(1, 30), thorough=(4, 200), shrink=False, min_nontrivial=0.2,
           doc="same oracle, beam a few rounding errors off the axis (or along it, then rotated) without "
               "staying bit-identical to it (isolates the near-parallel path-length defect in the map)"),
+    Facet("transmission_large_map", check_chunked, strategy=lambda tier: chunked_cases(),
+          quick=(2, 2), thorough=(16, 4), shrink=False, min_nontrivial=0.5,
+          doc="quadrature points x detectors above the 2e7 switch to the per-detector loop (1-d and 2-d "
+              "detector arrays) equals the same detectors evaluated in pieces below the switch"),
     Facet("transmission_negz", check_transmission, strategy=lambda tier: transmission_cases("negz"),
           quick=(1, 30), thorough=(8, 200), shrink=False, min_nontrivial=0.5,
           doc="same oracle where some axis has a negative z-component (isolates the rotation defect)"),
